@@ -83,7 +83,7 @@ def job_dialects(names):
                     for depth in range(1, 8):
                         for ind in ('', ' ', '   '):
                             for sep in (' ', '\t', ''):
-                                for title in ('', 'x', ' a b '):
+                                for title in ('', 'x', ' a b ', 'x\n', ' t \r\n'):
                                     line = ind + '#' * depth + sep + k + ':' + title
                                     case = {'kind': 'md-line', 'dialect': d, 'entry': mt, 'line': line}
                                     acc.n += 1
@@ -116,8 +116,8 @@ def job_dialects(names):
             for k in D[d][r]:
                 for b in ('*', '+', '-', '', '•', '#', '1.'):
                     for sp in ('', ' ', '  '):
-                        for ind in ('', '  '):
-                            line = ind + b + sp + k + 'text here '
+                        for ind, eol in (('', ''), ('  ', ''), ('', '\n'), (' ', '\r\n')):
+                            line = ind + b + sp + k + 'text here ' + eol
                             if b == '' and (sp + k).lstrip()[:1] in ('*', '+', '-'):
                                 continue      # the keyword itself ('* ') would serve as the bullet: unspecified
                             case = {'kind': 'md-line', 'dialect': d, 'entry': 'StepLine', 'line': line}
@@ -156,7 +156,7 @@ def job_tables(ncells):
     line = None
     for cells in itertools.product(CELLS, repeat=ncells):
         nsep = sum(1 for c in cells if c in SEPS)
-        if 0 < nsep < len(cells):
+        if 0 < nsep < len(cells) and ncells:
             acc.counters['mixed_rows_skipped'] += 1
             continue
         for ws in (' ', '\t'):
@@ -164,7 +164,8 @@ def job_tables(ncells):
                 for pad in (' ', ''):
                     if pad == '' and '' in cells:
                         continue
-                    line = ws * n + '|' + ''.join(pad + c + pad + '|' for c in cells)
+                    eol = '\n' if (n + len(cells)) % 2 else ''          # lines reach the matcher with and without their terminator
+                    line = ws * n + '|' + ''.join(pad + c + pad + '|' for c in cells) + eol
                     case = {'kind': 'md-line', 'dialect': 'en', 'entry': 'TableRow', 'line': line}
                     acc.n += 1
                     acc.validated += 1
@@ -232,7 +233,7 @@ def run(ctx):
     ctx.alphabet = {'dialects': len(names), 'header_depths': list(range(1, 8)), 'bullets': ['*', '+', '-', '', '•', '#', '1.'], 'cells': CELLS, 'tag_names': ['@a', '@tag-2', '@ü😀']}
     ctx.assumptions = ['line-level matching only (end-to-end Markdown parsing is documented as JavaScript-only); match_Comment / match_Empty of the Markdown matcher are outside the property']
     ctx.level('dialects x keywords x layouts', [job_dialects.job(names[i:i + 3]) for i in range(0, len(names), 3)])
-    ctx.level('table rows', [job_tables.job(n) for n in (1, 2, 3)] + ([job_tables.job(4)] if not ctx.quick else []))
+    ctx.level('table rows', [job_tables.job(n) for n in (0, 1, 2, 3)] + ([job_tables.job(4)] if not ctx.quick else []))
     ctx.level('tag lines', [job_tags.job(n) for n in (0, 1, 2, 3)])
 
 
